@@ -142,6 +142,28 @@ def runSplit (policy : Policy K) (mode : Mode) (init : List (K × K))
       runRestart true policy mode { klog := r.disk.klog, facs := shuffle r.disk.facs } (-1) m))
     (some (runFresh policy mode init n))
 
+/-! ### in-memory state that is NOT persisted
+
+  A process may carry state `h : H` that is not written to the restart files (a cache, a counter, ...).  It
+  evolves while the process runs (`stepH`) and is re-created from what was loaded when a process (re)starts
+  (`initH`).  `policyH` is a refinement decision that may read it. -/
+
+def nextIterH {H : Type} (policyH : H → Policy K) (stepH : H → State K → H) (rh : Run K × H) : Run K × H :=
+  let r := nextIter (policyH rh.2) rh.1
+  (r, stepH rh.2 r.st)
+
+def stepsH {H : Type} (policyH : H → Policy K) (stepH : H → State K → H) : Nat → Run K × H → Run K × H
+  | 0, rh => rh
+  | n + 1, rh => stepsH policyH stepH n (nextIterH policyH stepH rh)
+
+def runFreshH {H : Type} (policyH : H → Policy K) (stepH : H → State K → H) (initH : State K → H)
+    (mode : Mode) (init : List (K × K)) (n : Nat) : Run K × H :=
+  stepsH policyH stepH n (freshStart mode init, initH (freshStart mode init).st)
+
+def runRestartH {H : Type} (policyH : H → Policy K) (stepH : H → State K → H) (initH : State K → H)
+    (mode : Mode) (d : Disk K) (n : Nat) : Option (Run K × H) :=
+  (restartStart true mode d (-1)).map (fun r => stepsH policyH stepH n (r, initH r.st))
+
 end run
 
 /-! ### driver -/
